@@ -397,8 +397,67 @@ func C13(c *core.Ctx) {
 	}
 	// ---- SELECT status: 'not found' only for the statuses ReadFile.tla's Select maps to it --------------
 	c13SelectSweep(c)
+	// ---- READ BINARY answered with DATA under a status other than 9000 (ReadFile.tla: any such answer is LoopReject /
+	//      HdrReject, whatever octets come with it - 6281 "part of the returned data may be corrupted") -------------
+	c13DataUnderOtherStatus(c)
 	// ---- sessions of several reads with link faults (ReadSession.tla) ------------------------------------
 	readSessionReplay(c, "C13")
+}
+
+// c13DataUnderOtherStatus: the k-th READ BINARY of a read is answered with as many (wrong) octets as were asked for and
+// a warning / "more data" / error status instead of 9000: ReadFile returns an error or the exact file, never those octets.
+func c13DataUnderOtherStatus(c *core.Ctx) {
+	rnd := rand.New(rand.NewSource(c.Rand.Int63()))
+	obj := buildTLV(4, 600, false, rnd)
+	type job struct{ k, sw int }
+	var jobs []job
+	for _, sw1 := range []int{0x61, 0x62, 0x63, 0x64, 0x65, 0x91, 0x9F} {
+		for sw2 := 0; sw2 < 256; sw2++ {
+			if !c.Thorough() && sw1 != 0x62 && sw2%8 != int(c.Seed)%8 {
+				continue
+			}
+			for k := 0; k < 4; k++ {
+				jobs = append(jobs, job{k, sw1<<8 | sw2})
+			}
+		}
+	}
+	bad := make([]string, len(jobs))
+	core.ParallelFor(len(jobs), func(i int) {
+		j := jobs[i]
+		chip, err := chipsim.New(chipsim.Config{MfFiles: map[uint16][]byte{testFid: obj}, Transport: chipsim.Transport{ExtendedLength: true}})
+		if err != nil {
+			core.Infra("C13: chipsim.New: %v", err)
+		}
+		s := sim.NewPlain(chip)
+		n := 0
+		s.Link.Script = func(idx int, cmd []byte, l *link.Link) link.Action {
+			if len(cmd) >= 5 && cmd[1] == 0xB0 {
+				n++
+				if n-1 == j.k {
+					return link.Action{Name: "data-under-other-status", Respond: func(g []byte, l *link.Link) []byte {
+						out := make([]byte, len(g))
+						for q := range out {
+							out[q] = 0xA5 ^ byte(q)
+						}
+						out[len(out)-2], out[len(out)-1] = byte(j.sw>>8), byte(j.sw)
+						return out
+					}}
+				}
+			}
+			return link.Pass
+		}
+		data, rerr := s.Nfc.ReadFile(testFid)
+		if rerr == nil && data != nil && !bytes.Equal(data, obj) {
+			bad[i] = fmt.Sprintf("%d octets, first difference at %d", len(data), firstDiff(data, obj))
+		}
+	})
+	for i, b := range bad {
+		c.Case(fmt.Sprintf("data-under-status/%d/%04X", jobs[i].k, jobs[i].sw), true)
+		if b != "" {
+			c.Violation("C13:octets-under-a-non-9000-status-returned", fmt.Sprintf("READ BINARY #%d of a read was answered with other octets under status %04X and ReadFile returned them (%s)", jobs[i].k+1, jobs[i].sw, b), map[string]any{"read": jobs[i].k, "status": fmt.Sprintf("%04X", jobs[i].sw)})
+		}
+	}
+	c.Extra["data_under_other_status_cases"] = len(jobs)
 }
 
 // c13SelectSweep answers the SELECT of a present file with every status word of the classes 61..6F (and 9xxx
